@@ -139,11 +139,9 @@ def main():
     inp = json.load(open(sys.argv[1]))
     workroot = os.path.dirname(os.path.abspath(sys.argv[1]))
     res = []
+    from _limit import run_limited
     for job in inp["jobs"]:
-        try:
-            res.append(run_job(job, workroot))
-        except Exception as e:  # noqa
-            res.append({"error": traceback.format_exc()[-2000:], "kind": type(e).__name__})
+        res.append(run_limited(lambda j: run_job(j, workroot), job))
     json.dump({"results": res}, open(sys.argv[2], "w"))
 
 
